@@ -5,164 +5,653 @@ import (
 	"go/token"
 	"os"
 	"path/filepath"
+	"sort"
+	"strconv"
 	"strings"
 )
 
 // C17: facts about proxy/gzip/gzip_handler.go that the model in Fabio/Model/C17.lean silently depends on.
+//
+// The facts are ORDERED, GUARDED EVENT LISTS ("traces") of the exported entry points (the handler closure of
+// NewGzipHandler, GzipResponseWriter.WriteHeader/Write/Close), written in a canonical form that depends on what
+// the code does and not on how it is spelled:
+//
+//   - x.UseNormalizedAST(): package constants are inlined, literal concatenations folded, switch -> if chains;
+//   - calls to unexported functions/methods of the package are inlined with their arguments substituted (same
+//     policy as x.WalkInlined: same package, has a body, depth <= 4, no recursion), in statement AND expression
+//     position, so extracting/inlining/renaming an unexported helper does not change a trace;
+//   - identifiers are printed by role: receiver -> recv, parameters -> p0.., closure parameters -> c0.., a local
+//     assigned once -> the expression it was assigned from, any other local -> _, an unexported struct field ->
+//     F[its type], an unexported package variable -> its initialiser (or V[type]);
+//   - control flow: `if c { …; return }; rest` is read as `if c { … } else { rest }`; an if/else whose condition
+//     is in negative form (top-level ||, !, !=, >, >=) is swapped with the De Morgan negation; conjunctions are
+//     split into separate guards; a bare `return` at the end of a path is dropped;
+//   - `len(e) > 0`, `len(e) != 0`, `len(e) >= 1` are read as `e != ""`, and `len(e) == 0`, `len(e) <= 0`,
+//     `len(e) < 1` as `e == ""`.
+//
+// An event is `guard && guard => what`; what = a call (callee chain and canonical arguments), a store
+// `lhs = rhs` to a field, `return e`, `defer call`.
+type c17w struct {
+	x          *X
+	dir        string
+	fieldRole  map[string]string
+	pkgVarRole map[string]string
+	imports    map[string]bool
+	defID      map[string]string // body of an expression-inlined helper -> "@k"
+	defs       []string
+}
+
+// ref names the (substituted) body of a helper that is inlined in expression position: the first distinct body
+// is @1, the next @2, …; the bodies are emitted once in `inlinedDefs`.
+func (w *c17w) ref(body string) string {
+	if w.defID == nil {
+		w.defID = map[string]string{}
+	}
+	if id, ok := w.defID[body]; ok {
+		return id
+	}
+	id := "@" + strconv.Itoa(len(w.defs)+1)
+	w.defID[body] = id
+	w.defs = append(w.defs, id+" = {"+body+"}")
+	return id
+}
+
+type c17scope struct {
+	role   map[string]string
+	nasg   map[string]int
+	inFunc map[string]bool // unexported functions on the inlining stack
+	depth  int
+}
+
+func (w *c17w) init() {
+	w.fieldRole, w.pkgVarRole, w.imports = map[string]string{}, map[string]string{}, map[string]bool{}
+	for _, f := range w.x.files(w.dir) {
+		for _, im := range f.Imports {
+			p, _ := strconv.Unquote(im.Path.Value)
+			name := p[strings.LastIndex(p, "/")+1:]
+			if im.Name != nil {
+				name = im.Name.Name
+			}
+			w.imports[name] = true
+		}
+		for _, d := range f.Decls {
+			gd, ok := d.(*ast.GenDecl)
+			if !ok {
+				continue
+			}
+			for _, s := range gd.Specs {
+				switch v := s.(type) {
+				case *ast.TypeSpec:
+					st, ok := v.Type.(*ast.StructType)
+					if !ok {
+						continue
+					}
+					seen := map[string]int{}
+					for _, fl := range st.Fields.List {
+						t := w.x.src(fl.Type)
+						for _, nm := range fl.Names {
+							if ast.IsExported(nm.Name) {
+								continue
+							}
+							seen[t]++
+							r := "F[" + t + "]"
+							if seen[t] > 1 {
+								r = "F[" + t + "#" + strconv.Itoa(seen[t]) + "]"
+							}
+							w.fieldRole[nm.Name] = r
+						}
+					}
+				case *ast.ValueSpec:
+					if gd.Tok != token.VAR {
+						continue
+					}
+					for i, nm := range v.Names {
+						if ast.IsExported(nm.Name) {
+							continue
+						}
+						r := "V[?]"
+						if v.Type != nil {
+							r = "V[" + w.x.src(v.Type) + "]"
+						}
+						if i < len(v.Values) {
+							hasFunc := false
+							ast.Inspect(v.Values[i], func(n ast.Node) bool {
+								if _, ok := n.(*ast.FuncLit); ok {
+									hasFunc = true
+								}
+								return true
+							})
+							if cl, ok := v.Values[i].(*ast.CompositeLit); ok && cl.Type != nil {
+								r = "V[" + w.x.src(cl.Type) + "]"
+							}
+							if s := w.x.src(v.Values[i]); !hasFunc && len(s) <= 120 {
+								r = s
+							}
+						}
+						w.pkgVarRole[nm.Name] = r
+					}
+				}
+			}
+		}
+	}
+}
+
+func (w *c17w) newScope(fd *ast.FuncType, body *ast.BlockStmt, recvName, recvRole string, params []string, parent *c17scope) *c17scope {
+	sc := &c17scope{role: map[string]string{}, nasg: map[string]int{}, inFunc: map[string]bool{}}
+	if parent != nil {
+		for k, v := range parent.role {
+			sc.role[k] = v
+		}
+		for k, v := range parent.nasg {
+			sc.nasg[k] = v
+		}
+		for k, v := range parent.inFunc {
+			sc.inFunc[k] = v
+		}
+		sc.depth = parent.depth
+	}
+	if recvName != "" {
+		sc.role[recvName] = recvRole
+	}
+	i := 0
+	if fd.Params != nil {
+		for _, p := range fd.Params.List {
+			for _, n := range p.Names {
+				if i < len(params) {
+					sc.role[n.Name] = params[i]
+				}
+				i++
+			}
+		}
+	}
+	// how often is each local assigned?
+	bump := func(e ast.Expr) {
+		if id, ok := e.(*ast.Ident); ok {
+			sc.nasg[id.Name]++
+		}
+	}
+	ast.Inspect(body, func(n ast.Node) bool {
+		switch v := n.(type) {
+		case *ast.FuncLit:
+			return false
+		case *ast.AssignStmt:
+			for _, l := range v.Lhs {
+				bump(l)
+			}
+		case *ast.IncDecStmt:
+			bump(v.X)
+			bump(v.X)
+		case *ast.RangeStmt:
+			if v.Key != nil {
+				bump(v.Key)
+			}
+			if v.Value != nil {
+				bump(v.Value)
+			}
+		case *ast.ValueSpec:
+			for _, id := range v.Names {
+				if len(v.Values) > 0 {
+					sc.nasg[id.Name]++
+				}
+			}
+		}
+		return true
+	})
+	return sc
+}
+
+// ---- conditions ----
+
+func c17isLen(e ast.Expr) (ast.Expr, bool) {
+	c, ok := e.(*ast.CallExpr)
+	if !ok || len(c.Args) != 1 {
+		return nil, false
+	}
+	if id, ok := c.Fun.(*ast.Ident); ok && id.Name == "len" {
+		return c.Args[0], true
+	}
+	return nil, false
+}
+
+func c17intLit(e ast.Expr) (int, bool) {
+	if b, ok := e.(*ast.BasicLit); ok && b.Kind == token.INT {
+		n, err := strconv.Atoi(b.Value)
+		return n, err == nil
+	}
+	return 0, false
+}
+
+// normCond rewrites the len-forms of "is (not) empty" to comparisons with "".
+func c17normCond(e ast.Expr) ast.Expr {
+	switch v := e.(type) {
+	case *ast.ParenExpr:
+		return c17normCond(v.X)
+	case *ast.UnaryExpr:
+		if v.Op == token.NOT {
+			return &ast.UnaryExpr{Op: token.NOT, X: c17normCond(v.X)}
+		}
+	case *ast.BinaryExpr:
+		if v.Op == token.LAND || v.Op == token.LOR {
+			return &ast.BinaryExpr{X: c17normCond(v.X), Op: v.Op, Y: c17normCond(v.Y)}
+		}
+		empty := &ast.BasicLit{Kind: token.STRING, Value: `""`}
+		if a, ok := c17isLen(v.X); ok {
+			if n, ok := c17intLit(v.Y); ok {
+				switch {
+				case n == 0 && (v.Op == token.GTR || v.Op == token.NEQ), n == 1 && v.Op == token.GEQ:
+					return &ast.BinaryExpr{X: a, Op: token.NEQ, Y: empty}
+				case n == 0 && (v.Op == token.EQL || v.Op == token.LEQ), n == 1 && v.Op == token.LSS:
+					return &ast.BinaryExpr{X: a, Op: token.EQL, Y: empty}
+				}
+			}
+		}
+		if a, ok := c17isLen(v.Y); ok {
+			if n, ok := c17intLit(v.X); ok {
+				switch {
+				case n == 0 && (v.Op == token.LSS || v.Op == token.NEQ), n == 1 && v.Op == token.LEQ:
+					return &ast.BinaryExpr{X: a, Op: token.NEQ, Y: empty}
+				case n == 0 && (v.Op == token.EQL || v.Op == token.GEQ), n == 1 && v.Op == token.GTR:
+					return &ast.BinaryExpr{X: a, Op: token.EQL, Y: empty}
+				}
+			}
+		}
+	}
+	return e
+}
+
+var c17flip = map[token.Token]token.Token{token.EQL: token.NEQ, token.NEQ: token.EQL, token.LSS: token.GEQ,
+	token.GEQ: token.LSS, token.GTR: token.LEQ, token.LEQ: token.GTR}
+
+func c17negCond(e ast.Expr) ast.Expr {
+	switch v := e.(type) {
+	case *ast.ParenExpr:
+		return c17negCond(v.X)
+	case *ast.UnaryExpr:
+		if v.Op == token.NOT {
+			return v.X
+		}
+	case *ast.BinaryExpr:
+		switch v.Op {
+		case token.LAND:
+			return &ast.BinaryExpr{X: c17negCond(v.X), Op: token.LOR, Y: c17negCond(v.Y)}
+		case token.LOR:
+			return &ast.BinaryExpr{X: c17negCond(v.X), Op: token.LAND, Y: c17negCond(v.Y)}
+		}
+		if f, ok := c17flip[v.Op]; ok {
+			return &ast.BinaryExpr{X: v.X, Op: f, Y: v.Y}
+		}
+	}
+	return &ast.UnaryExpr{Op: token.NOT, X: e}
+}
+
+func c17negativeForm(e ast.Expr) bool {
+	switch v := e.(type) {
+	case *ast.ParenExpr:
+		return c17negativeForm(v.X)
+	case *ast.UnaryExpr:
+		return v.Op == token.NOT
+	case *ast.BinaryExpr:
+		return v.Op == token.LOR || v.Op == token.NEQ || v.Op == token.GTR || v.Op == token.GEQ
+	}
+	return false
+}
+
+func c17conjuncts(e ast.Expr) []ast.Expr {
+	switch v := e.(type) {
+	case *ast.ParenExpr:
+		return c17conjuncts(v.X)
+	case *ast.BinaryExpr:
+		if v.Op == token.LAND {
+			return append(c17conjuncts(v.X), c17conjuncts(v.Y)...)
+		}
+	}
+	return []ast.Expr{e}
+}
+
+// ---- expressions ----
+
+func (w *c17w) callee(c *ast.CallExpr, sc *c17scope) (fd *ast.FuncDecl, recv ast.Expr) {
+	if sc.depth >= 4 {
+		return nil, nil
+	}
+	name := ""
+	switch f := c.Fun.(type) {
+	case *ast.Ident:
+		if _, shadow := sc.role[f.Name]; shadow {
+			return nil, nil
+		}
+		name = f.Name
+	case *ast.SelectorExpr:
+		if id, ok := f.X.(*ast.Ident); ok && w.imports[id.Name] {
+			if _, shadow := sc.role[id.Name]; !shadow {
+				return nil, nil
+			}
+		}
+		name, recv = f.Sel.Name, f.X
+	}
+	if name == "" || ast.IsExported(name) || sc.inFunc[name] {
+		return nil, nil
+	}
+	d := w.x.anyFuncDecl(w.dir, name)
+	if d == nil || (d.Recv != nil) != (recv != nil) {
+		return nil, nil
+	}
+	return d, recv
+}
+
+// inline renders the body of an unexported callee with its parameters substituted.
+func (w *c17w) inline(fd *ast.FuncDecl, recv ast.Expr, args []ast.Expr, sc *c17scope, guards []string) []string {
+	var ps []string
+	for _, a := range args {
+		ps = append(ps, w.canon(a, sc))
+	}
+	rn, rr := "", ""
+	if recv != nil && len(fd.Recv.List) == 1 && len(fd.Recv.List[0].Names) == 1 {
+		rn, rr = fd.Recv.List[0].Names[0].Name, w.canon(recv, sc)
+	}
+	inner := w.newScope(fd.Type, fd.Body, rn, rr, ps, nil)
+	for k, v := range sc.inFunc {
+		inner.inFunc[k] = v
+	}
+	inner.inFunc[fd.Name.Name] = true
+	inner.depth = sc.depth + 1
+	var out []string
+	w.block(fd.Body.List, guards, inner, &out, true)
+	return out
+}
+
+func (w *c17w) canon(e ast.Expr, sc *c17scope) string {
+	switch v := e.(type) {
+	case nil:
+		return ""
+	case *ast.BasicLit:
+		return v.Value
+	case *ast.Ident:
+		if r, ok := sc.role[v.Name]; ok {
+			return r
+		}
+		if r, ok := w.pkgVarRole[v.Name]; ok {
+			return r
+		}
+		return v.Name
+	case *ast.ParenExpr:
+		if _, ok := v.X.(*ast.BinaryExpr); ok {
+			return "(" + w.canon(v.X, sc) + ")"
+		}
+		return w.canon(v.X, sc)
+	case *ast.SelectorExpr:
+		if id, ok := v.X.(*ast.Ident); ok && w.imports[id.Name] {
+			if _, shadow := sc.role[id.Name]; !shadow {
+				return id.Name + "." + v.Sel.Name
+			}
+		}
+		sel := v.Sel.Name
+		if r, ok := w.fieldRole[sel]; ok {
+			sel = r
+		}
+		return w.canon(v.X, sc) + "." + sel
+	case *ast.CallExpr:
+		if fd, recv := w.callee(v, sc); fd != nil {
+			return w.ref(strings.Join(w.inline(fd, recv, v.Args, sc, nil), "; "))
+		}
+		var as []string
+		for _, a := range v.Args {
+			as = append(as, w.canon(a, sc))
+		}
+		return w.canon(v.Fun, sc) + "(" + strings.Join(as, ", ") + ")"
+	case *ast.UnaryExpr:
+		return v.Op.String() + w.canon(v.X, sc)
+	case *ast.BinaryExpr:
+		n := c17normCond(v)
+		if b, ok := n.(*ast.BinaryExpr); ok {
+			return w.canon(b.X, sc) + " " + b.Op.String() + " " + w.canon(b.Y, sc)
+		}
+		return w.canon(n, sc)
+	case *ast.IndexExpr:
+		return w.canon(v.X, sc) + "[" + w.canon(v.Index, sc) + "]"
+	case *ast.StarExpr:
+		return "*" + w.canon(v.X, sc)
+	case *ast.TypeAssertExpr:
+		return w.canon(v.X, sc) + ".(" + w.x.src(v.Type) + ")"
+	case *ast.FuncLit:
+		var ps []string
+		n := 0
+		if v.Type.Params != nil {
+			for _, p := range v.Type.Params.List {
+				for range p.Names {
+					ps = append(ps, "c"+strconv.Itoa(n))
+					n++
+				}
+			}
+		}
+		inner := w.newScope(v.Type, v.Body, "", "", ps, sc)
+		var out []string
+		w.block(v.Body.List, nil, inner, &out, true)
+		return "func{" + strings.Join(out, "; ") + "}"
+	case *ast.CompositeLit:
+		var es []string
+		for _, el := range v.Elts {
+			if kv, ok := el.(*ast.KeyValueExpr); ok {
+				es = append(es, w.x.src(kv.Key)+": "+w.canon(kv.Value, sc))
+			} else {
+				es = append(es, w.canon(el, sc))
+			}
+		}
+		return w.x.src(v.Type) + "{" + strings.Join(es, ", ") + "}"
+	}
+	return w.x.src(e)
+}
+
+// ---- statements ----
+
+func c17terminates(b *ast.BlockStmt) bool {
+	if b == nil || len(b.List) == 0 {
+		return false
+	}
+	_, ok := b.List[len(b.List)-1].(*ast.ReturnStmt)
+	return ok
+}
+
+func (w *c17w) emit(out *[]string, guards []string, what string) {
+	if len(guards) > 0 {
+		gs := make([]string, len(guards))
+		for i, g := range guards {
+			if strings.Contains(g, " || ") {
+				g = "(" + g + ")"
+			}
+			gs[i] = g
+		}
+		what = strings.Join(gs, " && ") + " => " + what
+	}
+	*out = append(*out, what)
+}
+
+func (w *c17w) bind(lhs []ast.Expr, rhs []ast.Expr, define bool, guards []string, sc *c17scope, out *[]string) {
+	for i, l := range lhs {
+		val := ""
+		switch {
+		case len(rhs) == len(lhs):
+			val = w.canon(rhs[i], sc)
+		case len(rhs) == 1:
+			val = w.canon(rhs[0], sc) + "#" + strconv.Itoa(i)
+		}
+		id, isIdent := l.(*ast.Ident)
+		if isIdent && id.Name == "_" {
+			continue
+		}
+		if isIdent {
+			if _, isPkg := w.pkgVarRole[id.Name]; !isPkg || define {
+				sc.role[id.Name] = val // a local stands for the value it was last assigned (in source order)
+				continue
+			}
+		}
+		w.emit(out, guards, w.canon(l, sc)+" = "+val)
+	}
+}
+
+func c17hasCall(e ast.Expr) bool {
+	found := false
+	ast.Inspect(e, func(n ast.Node) bool {
+		if _, ok := n.(*ast.FuncLit); ok {
+			return false
+		}
+		if c, ok := n.(*ast.CallExpr); ok {
+			if id, ok := c.Fun.(*ast.Ident); !ok || (id.Name != "len" && id.Name != "cap") {
+				found = true
+			}
+		}
+		return true
+	})
+	return found
+}
+
+// block renders a statement list; last = nothing follows this list on its path (a bare return is dropped).
+func (w *c17w) block(list []ast.Stmt, guards []string, sc *c17scope, out *[]string, last bool) {
+	for i, st := range list {
+		isLast := last && i == len(list)-1
+		switch s := st.(type) {
+		case *ast.ExprStmt:
+			if c, ok := s.X.(*ast.CallExpr); ok {
+				if fd, recv := w.callee(c, sc); fd != nil {
+					*out = append(*out, w.inline(fd, recv, c.Args, sc, guards)...)
+					continue
+				}
+			}
+			w.emit(out, guards, w.canon(s.X, sc))
+		case *ast.AssignStmt:
+			// a call whose results only go into locals is still an event (its effects happen here)
+			allLocal := true
+			for _, l := range s.Lhs {
+				if _, ok := l.(*ast.Ident); !ok {
+					allLocal = false
+				}
+			}
+			if allLocal && len(s.Rhs) == 1 && c17hasCall(s.Rhs[0]) && s.Tok != token.DEFINE {
+				w.emit(out, guards, w.canon(s.Rhs[0], sc))
+			}
+			w.bind(s.Lhs, s.Rhs, s.Tok == token.DEFINE, guards, sc, out)
+		case *ast.DeclStmt:
+			if gd, ok := s.Decl.(*ast.GenDecl); ok {
+				for _, sp := range gd.Specs {
+					if vs, ok := sp.(*ast.ValueSpec); ok {
+						var l []ast.Expr
+						for _, n := range vs.Names {
+							l = append(l, n)
+						}
+						if len(vs.Values) > 0 {
+							w.bind(l, vs.Values, true, guards, sc, out)
+						}
+					}
+				}
+			}
+		case *ast.DeferStmt:
+			if fd, recv := w.callee(s.Call, sc); fd != nil {
+				w.emit(out, guards, "defer "+w.ref(strings.Join(w.inline(fd, recv, s.Call.Args, sc, nil), "; ")))
+			} else {
+				w.emit(out, guards, "defer "+w.canon(s.Call, sc))
+			}
+		case *ast.ReturnStmt:
+			if len(s.Results) == 0 {
+				if !isLast {
+					w.emit(out, guards, "return")
+				}
+				continue
+			}
+			var rs []string
+			for _, r := range s.Results {
+				rs = append(rs, w.canon(r, sc))
+			}
+			w.emit(out, guards, "return "+strings.Join(rs, ", "))
+		case *ast.BlockStmt:
+			w.block(s.List, guards, sc, out, isLast)
+		case *ast.IfStmt:
+			if s.Init != nil {
+				w.block([]ast.Stmt{s.Init}, guards, sc, out, false)
+			}
+			cond := c17normCond(s.Cond)
+			thenB, elseS := s.Body.List, s.Else
+			var elseB []ast.Stmt
+			consumed := false
+			switch e := elseS.(type) {
+			case *ast.BlockStmt:
+				elseB = e.List
+			case *ast.IfStmt:
+				elseB = []ast.Stmt{e}
+			case nil:
+				// `if c { …; return }; rest`  ==  `if c { … } else { rest }`
+				if c17terminates(s.Body) && i+1 < len(list) {
+					elseB, consumed = list[i+1:], true
+				}
+			}
+			tailLast := isLast || consumed && last
+			if elseB != nil && c17negativeForm(cond) {
+				cond, thenB, elseB = c17negCond(cond), elseB, thenB
+			}
+			g := append([]string(nil), guards...)
+			for _, c := range c17conjuncts(cond) {
+				g = append(g, w.canon(c, sc))
+			}
+			w.block(thenB, g, sc, out, tailLast)
+			if elseB != nil {
+				ng := append(append([]string(nil), guards...), w.canon(c17negCond(cond), sc))
+				w.block(elseB, ng, sc, out, tailLast)
+			}
+			if consumed {
+				return
+			}
+		case *ast.RangeStmt:
+			xr := w.canon(s.X, sc)
+			if id, ok := s.Key.(*ast.Ident); ok && id.Name != "_" {
+				sc.role[id.Name] = "key(" + xr + ")"
+			}
+			if id, ok := s.Value.(*ast.Ident); ok && id.Name != "_" {
+				sc.role[id.Name] = "elem(" + xr + ")"
+			}
+			w.block(s.Body.List, append(append([]string(nil), guards...), "range "+xr), sc, out, false)
+		case *ast.ForStmt:
+			if s.Init != nil {
+				w.block([]ast.Stmt{s.Init}, guards, sc, out, false)
+			}
+			w.block(s.Body.List, append(append([]string(nil), guards...), "for "+w.canon(s.Cond, sc)), sc, out, false)
+		case *ast.BranchStmt:
+			w.emit(out, guards, s.Tok.String())
+		case *ast.EmptyStmt:
+		default:
+			w.emit(out, guards, "stmt "+w.x.src(st))
+		}
+	}
+}
+
+// trace of a declared function or method.
+func (w *c17w) traceDecl(fd *ast.FuncDecl) []string {
+	rn := ""
+	if fd.Recv != nil && len(fd.Recv.List) == 1 && len(fd.Recv.List[0].Names) == 1 {
+		rn = fd.Recv.List[0].Names[0].Name
+	}
+	var ps []string
+	n := 0
+	if fd.Type.Params != nil {
+		for _, p := range fd.Type.Params.List {
+			for range p.Names {
+				ps = append(ps, "p"+strconv.Itoa(n))
+				n++
+			}
+		}
+	}
+	sc := w.newScope(fd.Type, fd.Body, rn, "recv", ps, nil)
+	out := []string{}
+	w.block(fd.Body.List, nil, sc, &out, true)
+	return out
+}
+
 func init() {
 	register("C17", func(x *X) error {
+		x.UseNormalizedAST()
 		const dir = "proxy/gzip"
-		// the header-name and encoding literals
-		for _, c := range []string{"headerVary", "headerAccept", "headerAcceptEncoding", "headerContentEncoding",
-			"headerContentType", "headerContentLength", "encodingGzip"} {
-			if e := x.valueSpec(dir, c); e != nil {
-				if s, ok := x.strLit(e); ok {
-					x.defStr(c, s)
-				} else {
-					x.fail("%s is not a string literal", c)
-				}
-			}
-		}
-		if e := x.valueSpec(dir, "blacklistedAcceptContentTypes"); e != nil {
-			var vs []string
-			if cl, ok := e.(*ast.CompositeLit); ok {
-				for _, el := range cl.Elts {
-					if s, ok := x.strLit(el); ok {
-						vs = append(vs, s)
-					} else {
-						x.fail("blacklistedAcceptContentTypes: non-literal element")
-					}
-				}
-			} else {
-				x.fail("blacklistedAcceptContentTypes is not a composite literal")
-			}
-			x.defStrList("blacklistedAccept", vs)
-		}
+		w := &c17w{x: x, dir: dir}
+		w.init()
 
-		// calls (rendered) in source order inside a node, not descending into function literals
-		callsIn := func(n ast.Node) []string {
-			var out []string
-			if n == nil {
-				return out
-			}
-			ast.Inspect(n, func(m ast.Node) bool {
-				if _, ok := m.(*ast.FuncLit); ok {
-					return false
-				}
-				if c, ok := m.(*ast.CallExpr); ok {
-					out = append(out, x.src(c))
-				}
-				return true
-			})
-			return out
-		}
-		// outermost calls of the statements of a block (expression statements, assignments, defers, returns)
-		stmtCalls := func(b *ast.BlockStmt) []string {
-			var out []string
-			if b == nil {
-				return out
-			}
-			for _, st := range b.List {
-				switch s := st.(type) {
-				case *ast.ExprStmt:
-					out = append(out, x.src(s.X))
-				case *ast.AssignStmt:
-					for _, r := range s.Rhs {
-						out = append(out, x.src(r))
-					}
-				case *ast.DeferStmt:
-					out = append(out, "defer "+x.src(s.Call))
-				case *ast.ReturnStmt:
-					if len(s.Results) == 0 {
-						out = append(out, "return")
-					}
-					for _, r := range s.Results {
-						out = append(out, "return "+x.src(r))
-					}
-				case *ast.IfStmt:
-					out = append(out, "if "+x.src(s.Cond))
-				default:
-					out = append(out, "other")
-				}
-			}
-			return out
-		}
-		firstIf := func(b *ast.BlockStmt) *ast.IfStmt {
-			if b == nil {
-				return nil
-			}
-			for _, st := range b.List {
-				if s, ok := st.(*ast.IfStmt); ok {
-					return s
-				}
-			}
-			return nil
-		}
-
-		lastIf := func(b *ast.BlockStmt) *ast.IfStmt {
-			var l *ast.IfStmt
-			for _, st := range b.List {
-				if s, ok := st.(*ast.IfStmt); ok {
-					l = s
-				}
-			}
-			return l
-		}
-		// WriteHeader: guard, compress condition, what the compress branch does, the fallback, the final call
-		if fd := x.funcDecl(dir, "GzipResponseWriter", "WriteHeader"); fd != nil {
-			x.defStrList("writeHeaderStmts", stmtCalls(fd.Body))
-			// the 1xx early return comes first; the decision guard is the if after it
-			var ifs []*ast.IfStmt
-			for _, st := range fd.Body.List {
-				if s, ok := st.(*ast.IfStmt); ok {
-					ifs = append(ifs, s)
-				}
-			}
-			if len(ifs) == 2 {
-				x.defStrList("informationalBranch", stmtCalls(ifs[0].Body))
-			} else {
-				x.fail("WriteHeader: expected the 1xx early return and the decision guard, found %d if statements", len(ifs))
-			}
-			if outer := lastIf(fd.Body); outer != nil {
-				x.defStr("writeHeaderGuard", x.src(outer.Cond))
-				if inner := firstIf(outer.Body); inner != nil {
-					x.defStr("compressCond", x.src(inner.Cond))
-					x.defStrList("compressBranch", stmtCalls(inner.Body))
-					if eb, ok := inner.Else.(*ast.BlockStmt); ok {
-						x.defStrList("plainBranch", stmtCalls(eb))
-					} else {
-						x.fail("WriteHeader: no else branch")
-					}
-				} else {
-					x.fail("WriteHeader: inner if not found")
-				}
-			} else {
-				x.fail("WriteHeader: guard not found")
-			}
-		}
-		// Write
-		if fd := x.funcDecl(dir, "GzipResponseWriter", "Write"); fd != nil {
-			x.defStrList("writeStmts", stmtCalls(fd.Body))
-			if outer := firstIf(fd.Body); outer != nil {
-				x.defStrList("writeUndecided", stmtCalls(outer.Body))
-				if sn := firstIf(outer.Body); sn != nil {
-					x.defStr("sniffGuard", x.src(sn.Init)+"; "+x.src(sn.Cond))
-					x.defStrList("sniffBranch", stmtCalls(sn.Body))
-				} else {
-					x.fail("Write: sniff guard not found")
-				}
-			}
-		}
-		// Close
-		if fd := x.funcDecl(dir, "GzipResponseWriter", "Close"); fd != nil {
-			x.defStrList("closeStmts", stmtCalls(fd.Body))
-			if outer := firstIf(fd.Body); outer != nil {
-				x.defStrList("closeBranch", stmtCalls(outer.Body))
-			} else {
-				x.fail("Close: guard not found")
-			}
-		}
-		// NewGzipHandler: the closure
+		// the traces of the exported entry points
 		if fd := x.funcDecl(dir, "", "NewGzipHandler"); fd != nil {
 			var lit *ast.FuncLit
 			ast.Inspect(fd.Body, func(n ast.Node) bool {
@@ -174,83 +663,29 @@ func init() {
 			if lit == nil {
 				x.fail("NewGzipHandler: handler closure not found")
 			} else {
-				x.defStrList("handlerStmts", stmtCalls(lit.Body))
-				if br := firstIf(lit.Body); br != nil {
-					x.defStrList("handlerGzipBranch", stmtCalls(br.Body))
-					if eb, ok := br.Else.(*ast.BlockStmt); ok {
-						x.defStrList("handlerPlainBranch", stmtCalls(eb))
-					}
+				outer := w.newScope(fd.Type, fd.Body, "", "", []string{"p0", "p1"}, nil)
+				var ps []string
+				for i := 0; i < lit.Type.Params.NumFields(); i++ {
+					ps = append(ps, "c"+strconv.Itoa(i))
 				}
-				nClose := 0
-				for _, c := range callsIn(lit.Body) {
-					if strings.HasSuffix(c, ".Close()") {
-						nClose++
-					}
-				}
-				x.defNat("handlerCloseCalls", uint64(nClose))
+				inner := w.newScope(lit.Type, lit.Body, "", "", ps, outer)
+				out := []string{}
+				w.block(lit.Body.List, nil, inner, &out, true)
+				x.defStrList("handlerTrace", out)
 			}
 		}
-		// isCompressable, bodyAllowedForStatus, acceptsGzip, zeroWeight: statement skeletons
-		for _, fn := range []string{"isCompressable", "bodyAllowedForStatus"} {
-			if fd := x.funcDecl(dir, "", fn); fd != nil {
-				x.defStrList(fn+"Stmts", stmtCalls(fd.Body))
-				if br := firstIf(fd.Body); br != nil {
-					x.defStrList(fn+"Branch", stmtCalls(br.Body))
-				}
+		entries := map[string][]string{}
+		for _, m := range []string{"WriteHeader", "Write", "Close"} {
+			if fd := x.funcDecl(dir, "GzipResponseWriter", m); fd != nil {
+				entries[m] = w.traceDecl(fd)
+				x.defStrList(strings.ToLower(m[:1])+m[1:]+"Trace", entries[m])
 			}
 		}
-		for _, fn := range []string{"acceptsGzip", "zeroWeight"} {
-			if fd := x.funcDecl(dir, "", fn); fd != nil {
-				x.defStrList(fn+"Calls", callsIn(fd.Body))
-				var rets []string
-				ast.Inspect(fd.Body, func(n ast.Node) bool {
-					if r, ok := n.(*ast.ReturnStmt); ok {
-						for _, e := range r.Results {
-							rets = append(rets, x.src(e))
-						}
-					}
-					return true
-				})
-				x.defStrList(fn+"Returns", rets)
-				var conds []string
-				ast.Inspect(fd.Body, func(n ast.Node) bool {
-					if s, ok := n.(*ast.IfStmt); ok {
-						c := x.src(s.Cond)
-						if s.Init != nil {
-							c = x.src(s.Init) + "; " + c
-						}
-						conds = append(conds, c)
-					}
-					return true
-				})
-				x.defStrList(fn+"Conds", conds)
-			}
-		}
-		// who touches the pool, in the whole package: Get and Put once each
-		nGet, nPut := 0, 0
-		var getIn, putIn []string
-		for _, f := range x.files(dir) {
-			for _, d := range f.Decls {
-				fd, ok := d.(*ast.FuncDecl)
-				if !ok || fd.Body == nil {
-					continue
-				}
-				for _, c := range x.calls(fd.Body, "gzipWriterPool.Get") {
-					_ = c
-					nGet++
-					getIn = append(getIn, fd.Name.Name)
-				}
-				for _, c := range x.calls(fd.Body, "gzipWriterPool.Put") {
-					_ = c
-					nPut++
-					putIn = append(putIn, fd.Name.Name)
-				}
-			}
-		}
-		x.defStrList("poolGetIn", getIn)
-		x.defStrList("poolPutIn", putIn)
-		// assignments to grw.writer / grw.gzipWriter in the package (the decision is taken in one place)
-		var assigns []string
+
+		x.defStrList("inlinedDefs", w.defs)
+
+		// every string literal the traces mention (header names, encodings, separators)
+		lits := map[string]bool{}
 		for _, f := range x.files(dir) {
 			for _, d := range f.Decls {
 				fd, ok := d.(*ast.FuncDecl)
@@ -258,11 +693,116 @@ func init() {
 					continue
 				}
 				ast.Inspect(fd.Body, func(n ast.Node) bool {
-					if a, ok := n.(*ast.AssignStmt); ok && a.Tok == token.ASSIGN {
-						for _, l := range a.Lhs {
-							s := x.src(l)
-							if s == "grw.writer" || s == "grw.gzipWriter" {
-								assigns = append(assigns, fd.Name.Name+": "+x.src(a))
+					if b, ok := n.(*ast.BasicLit); ok && b.Kind == token.STRING {
+						if s, err := strconv.Unquote(b.Value); err == nil {
+							lits[s] = true
+						}
+					}
+					return true
+				})
+			}
+		}
+		for _, f := range x.files(dir) { // package-level variable initialisers (the Accept blacklist)
+			for _, d := range f.Decls {
+				if gd, ok := d.(*ast.GenDecl); ok && gd.Tok == token.VAR {
+					ast.Inspect(gd, func(n ast.Node) bool {
+						if b, ok := n.(*ast.BasicLit); ok && b.Kind == token.STRING {
+							if s, err := strconv.Unquote(b.Value); err == nil {
+								lits[s] = true
+							}
+						}
+						return true
+					})
+				}
+			}
+		}
+		var ls []string
+		for l := range lits {
+			ls = append(ls, l)
+		}
+		x.defSortedStrList("stringLiterals", ls)
+
+		// the method set of *GzipResponseWriter that matters for interface satisfaction: exported declared
+		// methods, embedded fields, and the types of the named fields (names are free)
+		var methods, fieldTypes, embedded []string
+		for _, f := range x.files(dir) {
+			for _, d := range f.Decls {
+				switch v := d.(type) {
+				case *ast.FuncDecl:
+					if v.Recv == nil || len(v.Recv.List) != 1 || !ast.IsExported(v.Name.Name) {
+						continue
+					}
+					t := v.Recv.List[0].Type
+					if st, ok := t.(*ast.StarExpr); ok {
+						t = st.X
+					}
+					if id, ok := t.(*ast.Ident); ok && id.Name == "GzipResponseWriter" {
+						methods = append(methods, v.Name.Name)
+					}
+				case *ast.GenDecl:
+					for _, sp := range v.Specs {
+						ts, ok := sp.(*ast.TypeSpec)
+						if !ok || ts.Name.Name != "GzipResponseWriter" {
+							continue
+						}
+						st, ok := ts.Type.(*ast.StructType)
+						if !ok {
+							x.fail("GzipResponseWriter is not a struct")
+							continue
+						}
+						for _, fl := range st.Fields.List {
+							if len(fl.Names) == 0 {
+								embedded = append(embedded, x.src(fl.Type))
+							}
+							for range fl.Names {
+								fieldTypes = append(fieldTypes, x.src(fl.Type))
+							}
+						}
+					}
+				}
+			}
+		}
+		x.defSortedStrList("writerMethods", methods)
+		x.defSortedStrList("writerFieldTypes", fieldTypes)
+		x.defSortedStrList("writerEmbedded", embedded)
+
+		// which exported entry points reach Pool.Get / Pool.Put, and which store into the writer's fields
+		// (x.WalkInlined: through unexported helpers)
+		poolVar := ""
+		for name, r := range w.pkgVarRole {
+			if r == "V[sync.Pool]" {
+				poolVar = name
+			}
+		}
+		if poolVar == "" {
+			x.fail("package-level sync.Pool not found")
+		}
+		var getIn, putIn, stores []string
+		for _, f := range x.files(dir) {
+			for _, d := range f.Decls {
+				fd, ok := d.(*ast.FuncDecl)
+				if !ok || fd.Body == nil || !ast.IsExported(fd.Name.Name) {
+					continue
+				}
+				x.WalkInlined(dir, fd, func(n ast.Node) bool {
+					switch v := n.(type) {
+					case *ast.CallExpr:
+						if se, ok := v.Fun.(*ast.SelectorExpr); ok {
+							if id, ok := se.X.(*ast.Ident); ok && id.Name == poolVar {
+								switch se.Sel.Name {
+								case "Get":
+									getIn = append(getIn, fd.Name.Name)
+								case "Put":
+									putIn = append(putIn, fd.Name.Name)
+								}
+							}
+						}
+					case *ast.AssignStmt:
+						for _, l := range v.Lhs {
+							if se, ok := l.(*ast.SelectorExpr); ok {
+								if r, ok := w.fieldRole[se.Sel.Name]; ok {
+									stores = append(stores, fd.Name.Name+": "+r)
+								}
 							}
 						}
 					}
@@ -270,71 +810,58 @@ func init() {
 				})
 			}
 		}
-		x.defStrList("writerAssignments", assigns)
+		sort.Strings(getIn)
+		sort.Strings(putIn)
+		x.defStrList("poolGetIn", getIn)
+		x.defStrList("poolPutIn", putIn)
+		x.defStrList("fieldStores", stores)
 
-		// the method set of *GzipResponseWriter: declared methods plus what the embedded fields promote
-		var methods []string
-		for _, f := range x.files(dir) {
-			for _, d := range f.Decls {
-				fd, ok := d.(*ast.FuncDecl)
-				if !ok || fd.Recv == nil || len(fd.Recv.List) != 1 {
-					continue
-				}
-				t := fd.Recv.List[0].Type
-				if st, ok := t.(*ast.StarExpr); ok {
-					t = st.X
-				}
-				if id, ok := t.(*ast.Ident); ok && id.Name == "GzipResponseWriter" {
-					methods = append(methods, fd.Name.Name)
-				}
-			}
-		}
-		x.defSortedStrList("writerMethods", methods)
-		var fields, embedded []string
-		for _, f := range x.files(dir) {
-			ast.Inspect(f, func(n ast.Node) bool {
-				ts, ok := n.(*ast.TypeSpec)
-				if !ok || ts.Name.Name != "GzipResponseWriter" {
-					return true
-				}
-				st, ok := ts.Type.(*ast.StructType)
-				if !ok {
-					x.fail("GzipResponseWriter is not a struct")
-					return false
-				}
-				for _, fl := range st.Fields.List {
-					if len(fl.Names) == 0 {
-						embedded = append(embedded, x.src(fl.Type))
-					}
-					for _, nm := range fl.Names {
-						fields = append(fields, nm.Name+" "+x.src(fl.Type))
-					}
-				}
-				return false
-			})
-		}
-		x.defStrList("writerFields", fields)
-		x.defStrList("writerEmbedded", embedded)
-
-		// proxy/http_proxy.go: the handler is wrapped iff GZIPContentTypes is configured
+		// proxy/http_proxy.go: where gzip.NewGzipHandler is called (through helpers), under which guards, with
+		// which expression
+		pw := &c17w{x: x, dir: "proxy"}
+		pw.init()
+		var wraps []string
 		if fd := x.funcDecl("proxy", "HTTPProxy", "ServeHTTP"); fd != nil {
-			found := false
-			ast.Inspect(fd.Body, func(n ast.Node) bool {
-				s, ok := n.(*ast.IfStmt)
-				if !ok || found {
+			x.WalkInlined("proxy", fd, func(n ast.Node) bool {
+				c, ok := n.(*ast.CallExpr)
+				if !ok || x.src(c.Fun) != "gzip.NewGzipHandler" || len(c.Args) != 2 {
 					return true
 				}
-				if cs := x.calls(s.Body, "gzip.NewGzipHandler"); len(cs) == 1 {
-					found = true
-					x.defStr("proxyWrapCond", x.src(s.Cond))
-					x.defStrList("proxyWrapBranch", stmtCalls(s.Body))
+				// the enclosing function and the conditions the call sits under
+				for _, f := range x.files("proxy") {
+					for _, d := range f.Decls {
+						en, ok := d.(*ast.FuncDecl)
+						if !ok || en.Body == nil || c.Pos() < en.Body.Pos() || c.End() > en.Body.End() {
+							continue
+						}
+						rn := ""
+						if en.Recv != nil && len(en.Recv.List) == 1 && len(en.Recv.List[0].Names) == 1 {
+							rn = en.Recv.List[0].Names[0].Name
+						}
+						sc := pw.newScope(en.Type, en.Body, rn, "recv", nil, nil)
+						var gs []string
+						ast.Inspect(en.Body, func(m ast.Node) bool {
+							is, ok := m.(*ast.IfStmt)
+							if !ok {
+								return true
+							}
+							if c.Pos() >= is.Body.Pos() && c.End() <= is.Body.End() {
+								for _, cj := range c17conjuncts(c17normCond(is.Cond)) {
+									gs = append(gs, pw.canon(cj, sc))
+								}
+							} else if is.Else != nil && c.Pos() >= is.Else.Pos() && c.End() <= is.Else.End() {
+								gs = append(gs, pw.canon(c17negCond(c17normCond(is.Cond)), sc))
+							}
+							return true
+						})
+						wraps = append(wraps, strings.Join(gs, " && ")+" => gzip.NewGzipHandler(_, "+pw.canon(c.Args[1], sc)+")")
+					}
 				}
 				return true
 			})
-			if !found {
-				x.fail("proxy.HTTPProxy.ServeHTTP: gzip.NewGzipHandler wrap not found")
-			}
 		}
+		x.defStrList("proxyWrap", wraps)
+
 		// the documented expression (the harness uses it as the main pattern)
 		doc := ""
 		if b, err := os.ReadFile(filepath.Join(x.repo, "docs/content/ref/proxy.gzip.contenttype.md")); err == nil {
